@@ -37,6 +37,7 @@ type c15Scen struct {
 	Coding     string    `json:"coding"` // "", gzip, deflate
 	ShortN     int       `json:"short_write_accepts"`
 	Middleware bool      `json:"http_middleware_between_filter_and_handler"`
+	NoProduces bool      `json:"route_declares_no_produces"` // with an Accept no writer serves, entity calls answer 406
 }
 
 var c15First = []string{"none", "WriteHeader", "WriteEntity", "WriteHeaderAndEntity", "WriteAsJson", "WriteAsXml", "WriteJson", "WriteHeaderAndJson", "WriteHeaderAndXml", "WriteError", "WriteErrorString", "WriteServiceError"}
@@ -71,6 +72,10 @@ func genC15(x *Ctx) *c15Scen {
 	sc.Coding = []string{"", "", "gzip", "deflate"}[tp.G(4)]
 	sc.ShortN = tp.G(64)
 	sc.Middleware = tp.Chance(350)
+	if tp.Chance(150) {
+		sc.NoProduces = true
+		sc.Accept = []string{"", "*/*"}[tp.G(2)] // admitted by the router, served by no entity writer
+	}
 	return sc
 }
 
@@ -109,7 +114,10 @@ func c15Exec(sc *c15Scen, mode, failAt int) *c15Obs {
 			return http.HandlerFunc(func(rw http.ResponseWriter, r *http.Request) { next.ServeHTTP(rw, r) })
 		}))
 	}
-	ws := new(restful.WebService).Path("/b").Produces("application/json", "application/xml")
+	ws := new(restful.WebService).Path("/b")
+	if !sc.NoProduces {
+		ws.Produces("application/json", "application/xml")
+	}
 	ws.Route(ws.GET("/k").To(func(req *restful.Request, resp *restful.Response) {
 		obs.ran = true
 		resp.PrettyPrint(sc.Pretty)
